@@ -194,8 +194,52 @@ fn default_transaction_info() -> TransactionInfo {
         .into()
 }
 
+/// Re-packs a shared library so that the file content of every segment starts one page later in the
+/// cell (ckb_dlopen2 then loads the executable segment with a NON-ZERO content offset); the bytes at
+/// the old position of `.text` in the first page are replaced by `li a0, 1; ret`, which a correct
+/// loader never reads.
+fn shift_lib_content_by_one_page(lib: &[u8]) -> Vec<u8> {
+    const PAGE: usize = 4096;
+    let u16_at = |buf: &[u8], at: usize| u16::from_le_bytes(buf[at..at + 2].try_into().unwrap());
+    let u64_at = |buf: &[u8], at: usize| u64::from_le_bytes(buf[at..at + 8].try_into().unwrap());
+    fn add_u64(buf: &mut [u8], at: usize, delta: u64) {
+        let v = u64::from_le_bytes(buf[at..at + 8].try_into().unwrap()) + delta;
+        buf[at..at + 8].copy_from_slice(&v.to_le_bytes());
+    }
+    let phoff = u64_at(lib, 0x20) as usize;
+    let shoff = u64_at(lib, 0x28) as usize;
+    let (phentsize, phnum) = (u16_at(lib, 0x36) as usize, u16_at(lib, 0x38) as usize);
+    let (shentsize, shnum) = (u16_at(lib, 0x3A) as usize, u16_at(lib, 0x3C) as usize);
+    assert!(phoff + phentsize * phnum <= PAGE);
+    let mut out = lib[..PAGE].to_vec();
+    out.extend_from_slice(lib);
+    add_u64(&mut out, 0x28, PAGE as u64);
+    for i in 0..phnum {
+        add_u64(&mut out, phoff + i * phentsize + 8, PAGE as u64);
+    }
+    let mut text = None;
+    for i in 0..shnum {
+        let sh = PAGE + shoff + i * shentsize;
+        let sh_type = u32::from_le_bytes(out[sh..sh + 4].try_into().unwrap());
+        let sh_flags = u64_at(&out, sh + 8);
+        if sh_flags & 0x4 != 0 {
+            text = Some((u64_at(&out, sh + 24) as usize, u64_at(&out, sh + 32) as usize));
+        }
+        if sh_type != 0 && sh_flags & 0x2 == 0 {
+            add_u64(&mut out, sh + 24, PAGE as u64);
+        }
+    }
+    let (text_offset, text_size) = text.expect(".text");
+    assert!(text_size >= 8 && text_offset + 8 <= PAGE);
+    out[text_offset..text_offset + 8].copy_from_slice(&[0x05, 0x45, 0x82, 0x80, 0x01, 0x00, 0x01, 0x00]);
+    out
+}
+
+/// `name@shifted` = the file re-packed by shift_lib_content_by_one_page
 pub fn load_cell(file: &str) -> (CellMeta, Byte32) {
-    let data = std::fs::read(format!("{}/{}", TESTDATA, file)).unwrap_or_else(|e| panic!("{file}: {e}"));
+    let (path, shifted) = match file.strip_suffix("@shifted") { Some(f) => (f, true), None => (file, false) };
+    let data = std::fs::read(format!("{}/{}", TESTDATA, path)).unwrap_or_else(|e| panic!("{file}: {e}"));
+    let data = if shifted { shift_lib_content_by_one_page(&data) } else { data };
     let cell_data = Bytes::from(data);
     let cell_output = CellOutput::new_builder()
         .capacity(Capacity::bytes(cell_data.len()).unwrap())
@@ -410,6 +454,21 @@ pub fn programs() -> Vec<Prog> {
         v.push(Prog { witness: Some("exec_callee"), ..prog!("exec_from_witness", "exec_caller_from_witness", &[], &[], ver) });
         v.push(prog!("exec_wrong_callee", "exec_caller_from_cell_data", &["exec_caller_from_cell_data", "always_success", "is_even.lib"], &[], ver));
         v.push(prog!("exec_big_offset_length", "exec_caller_big_offset_length", &["exec_caller_big_offset_length", "exec_callee"], &[], ver));
+    }
+    // ckb_dlopen2 (load_cell_data_as_code): args = number (u64 LE) ++ data hash of the library; the
+    // library is found among the cell deps by its data hash.  `@shifted`: its executable segment sits at a
+    // non-zero offset of the cell.  is_even(number) decides: odd -> success, even -> failure.
+    for ver in 0..=2u8 {
+        for (lib, tag) in [("is_even.lib", "plain"), ("is_even.lib@shifted", "shifted")] {
+            for number in [1u64, 2] {
+                let mut a = number.to_le_bytes().to_vec();
+                a.extend_from_slice(load_cell(lib).1.as_slice());
+                let args: &'static [u8] = Box::leak(a.into_boxed_slice());
+                let name: &'static str = Box::leak(format!("dlopen_is_even_{tag}_{number}").into_boxed_str());
+                let deps: &'static [&'static str] = Box::leak(vec!["load_is_even_with_snapshot", lib].into_boxed_slice());
+                v.push(Prog { pauses: true, ..prog!(name, "load_is_even_with_snapshot", deps, args, ver) });
+            }
+        }
     }
     v.push(Prog { salt_ok: true, ..prog!("vm_version_2", "vm_version_2", &[], &[], 2) });
     // spawn family (VM2)
